@@ -316,9 +316,12 @@ def universe(tier, rng):
             operands = NUM if arithmetic else ALLOPS
             if adv in MONADIC_USE or adv == "each":
                 operands = operands + (DICTS if not arithmetic or adv == "each" else [])
+            if adv in ("while", "scanwhile"):
+                # an orbit that never ends must at least stay small: atoms, vectors, strings only
+                operands = [a for a in operands if a in ATOMS_NUM or a in VECS or a in STRS]
             for a in operands:
-                if v == "|" and ar == 1 and (isinstance(a, int) or a[0] in ("c", "d")):
-                    continue          # Reverse of an atom is C01's subject
+                if v == "|" and ar == 1 and (isinstance(a, int) or a[0] in ("c", "d", "s")):
+                    continue          # Reverse of an atom (a character of a string included) is C01's subject
                 shortcut = ar == 2 and v in OPS and adv in ("over", "scan") and is_num(a) and not isinstance(a, int)
                 if adv in MONADIC_USE:
                     add({"adv": adv, "verb": v, "a": a}, core=shortcut or a in (L(3, 1, 2), S("abc"), 5))
@@ -344,9 +347,18 @@ def universe(tier, rng):
     cverbs2 = ["+", ",", "&", "Lsnd", "Lnc", "L+", "py", "-"]
     cops = [L(L(1, 2), L(3, 4)), L(L(1, 2, 3), L(4, 5, 6), L(7, 8, 9)), L(1, L(2, L(3, L(4), 5), 6), 7), L(3, 1, 2), L(L(5)), L(), 5,
             L(S("ab"), S("cd")), L(L(1), L(2, 3))]
+    calm1 = ["Lid", "Lone", "Lcap", "#", "-"]      # verbs under which a repeated application stays bounded
     for first in MONADIC_USE:
         for second in ("each", "eachindex", "converge", "scanconv"):
-            for v in (cverbs1 if VERB_ARITY[first] == 1 else cverbs2):
+            vs = cverbs1 if VERB_ARITY[first] == 1 else cverbs2
+            if second in ("converge", "scanconv"):
+                # the derived monad is applied until a fixpoint: only combinations whose orbit stays bounded
+                # (an operator shortcut inside an endless orbit never passes through the evaluation budget)
+                if first in ("eachindex", "scan", "scanconv"):
+                    continue
+                if VERB_ARITY[first] == 1:
+                    vs = calm1
+            for v in vs:
                 for a in cops:
                     if v in ("|",) and isinstance(a, int):
                         continue
@@ -451,6 +463,16 @@ def has_real(c):
     return False
 
 
+def all_real(c):
+    """every integer leaf read as a real"""
+    import struct
+    if isinstance(c, list):
+        if len(c) == 2 and c[0] == "i":
+            return ["r", struct.unpack(">Q", struct.pack(">d", float(c[1])))[0]]
+        return [c[0]] + [all_real(x) for x in c[1:]] if c and isinstance(c[0], str) else [all_real(x) for x in c]
+    return c
+
+
 def model_calls(m):
     log = m[-1]
     out = []
@@ -491,6 +513,9 @@ def classify(chk, c, o, m):
         chk.count("both_error")
     elif terr != eerr:
         prop = "text %s but expansion %s" % ("raises " + t[1] if terr else "gives a value", "raises " + e[1] if eerr else "gives a value")
+    elif t != e and c["verb"] in ("%", "L%") and all_real(t) == all_real(e):
+        # real division: NumPy keeps a1 of %\\a an integer in one path and converts it in the other (C01: numeric homogenisation)
+        chk.count("agree_value_modulo_int_real")
     elif t != e:
         prop = "text and expansion give different values"
     else:
